@@ -52,6 +52,9 @@ def check(pid, tier, args):
     dr = {n for n, _ in drej}
     for n, f in enumerate(demo):
         if (n in dr) != f["_expect_reject"]:
+            if rejects:      # a violation is being reported: the code's values are not where the demonstration assumes them
+                run.note("binding demonstration inconclusive on a tree with violations")
+                break
             raise vlib.Infra("binding demonstration failed on %s" % json.dumps(f)[:300])
     run.cov["binding_demo_corrupted_events"] = len(demo)
     run.sample(json.loads(lines[20]))
